@@ -203,6 +203,18 @@ fn harness_method(did: &str, fragment: &str, salt: u8) -> VerificationMethod {
   let jwk: identity_jose::jwk::Jwk =
     serde_json::from_value(serde_json::json!({"kty":"OKP","crv":"Ed25519","alg":"EdDSA","x": ks::b64(&x)})).unwrap();
   let mut m = VerificationMethod::new_from_jwk(CoreDID::parse(did).unwrap(), jwk, Some(fragment)).expect("harness method builds");
+  // one method in five carries its key as publicKeyMultibase instead of a JWK
+  if salt % 5 == 2 {
+    if let Ok(mb) = VerificationMethod::builder(Default::default())
+      .id(m.id().clone())
+      .controller(m.controller().clone())
+      .type_(identity_verification::MethodType::ED25519_VERIFICATION_KEY_2018)
+      .data(identity_verification::MethodData::new_multibase(x))
+      .build()
+    {
+      m = mb;
+    }
+  }
   // DID-core allows further properties on a verification method (derived from the salt, not from the tape: the
   // function is also used to rebuild expected values)
   if salt % 3 == 1 {
@@ -366,6 +378,30 @@ impl<'a> Run<'a> {
       Some(Some(3)),
       Some(Some(4)),
     ];
+    // the mutable lookup must find the very method the shared lookup finds (checked on a copy, every other time)
+    if ctx::choose(2) == 0 {
+      let mut copy = core.clone();
+      for q in &queries {
+        for sc in scopes.iter() {
+          let shared = core.resolve_method(q.as_str(), sc.map(to_scope)).map(|m| (m.id().to_string(), serde_json::to_value(m).ok()));
+          let exclusive = copy.resolve_method_mut(q.as_str(), sc.map(to_scope)).map(|m| (m.id().to_string(), serde_json::to_value(&*m).ok()));
+          if shared != exclusive {
+            ctx::violation(
+              "C04",
+              "C04.resolve_method_matches_model",
+              "resolve_method_mut-differs-from-resolve_method",
+              format!(
+                "after {op_label}: resolve_method({q}, {:?}) finds {:?} but resolve_method_mut finds {:?}",
+                sc.map(scope_name),
+                shared.map(|s| s.0),
+                exclusive.map(|s| s.0)
+              ),
+            );
+            break;
+          }
+        }
+      }
+    }
     // the query may be handed over as text, as a parsed DID URL, or as the relative part of one (`#fragment`)
     let query_form = ctx::choose(3);
     for q in &queries {
@@ -1194,7 +1230,7 @@ impl<'a> Run<'a> {
 
 // (the second fragment begins with the letters of the DID scheme: a fragment is whatever follows '#')
 const FRAGS: [&str; 32] = [
-  "a", "didcomm", "c", "d", "e", "f", "g", "h", "i", "j", "k", "l", "m", "n", "o", "p", "q", "r", "s", "t", "u", "v", "w", "x", "y", "z", "aa",
+  "a", "didcomm", "/k/1", "d", "e", "f", "g", "h", "i", "j", "k", "l", "m", "n", "o", "p", "q", "r", "s", "t", "u", "v", "w", "x", "y", "z", "aa",
   "ab", "ac", "ad", "ae", "af",
 ];
 
